@@ -81,6 +81,7 @@ type scen struct {
 	nextID uint64
 	meas   map[string][]float64
 	err    string
+	other  ref.Key // public key of a second, unrelated peer (multi-section sets)
 	fmu    sync.Mutex
 	failed []Item // datagrams refused by the bind (SendErrFn)
 }
@@ -137,12 +138,24 @@ func (s *scen) setAttempts(n int) {
 	s.w.Dev.VerifSetHandshakeAttempts(cosim.NoisePK(s.p.Pub), uint32(n))
 }
 
+// extraSection is a further peer section appended to the set operation (variants "*-multi"):
+// the peer under test is then configured by a NON-LAST section of a multi-peer set.
+func (s *scen) extraSection() string {
+	if !strings.HasSuffix(s.spec.Var, "-multi") {
+		return ""
+	}
+	if s.other == (ref.Key{}) {
+		s.other = ref.PubOf(ref.NewPrivate())
+	}
+	return fmt.Sprintf("public_key=%x\nallowed_ip=10.77.0.0/24\n", s.other[:])
+}
+
 // configure creates the peer (endpoint, allowed IPs, persistent keepalive) with ONE
 // UAPI set operation; the device is up already.
 func (s *scen) configure() {
 	s.in(9, 0, 0)
 	s.p.Configured = true
-	if err := s.w.Dev.IpcSet(cosim.PeerConfig(s.p, true)); err != nil {
+	if err := s.w.Dev.IpcSet(cosim.PeerConfig(s.p, true) + s.extraSection()); err != nil {
 		s.err = "set: " + err.Error()
 	}
 }
@@ -150,7 +163,7 @@ func (s *scen) configure() {
 // setPka changes the persistent-keepalive interval of the existing peer over UAPI.
 func (s *scen) setPka(n int) {
 	s.in(18, uint64(n), 0)
-	cfg := fmt.Sprintf("public_key=%x\npersistent_keepalive_interval=%d\n", s.p.Pub[:], n)
+	cfg := fmt.Sprintf("public_key=%x\npersistent_keepalive_interval=%d\n", s.p.Pub[:], n) + s.extraSection()
 	if err := s.w.Dev.IpcSet(cfg); err != nil {
 		s.err = "set: " + err.Error()
 	}
@@ -170,7 +183,7 @@ func newScen(spec Spec) (*scen, error) {
 	if per < 1 {
 		per = 1
 	}
-	if spec.Var == "uapi" {
+	if strings.HasPrefix(spec.Var, "uapi") {
 		p.Configured = false // created later, by a set operation on the device that is up
 	}
 	w, err := cosim.NewWorld(cosim.Config{Up: false, BindBatch: 1, TunBatch: per}, true, p)
@@ -479,7 +492,7 @@ func run(spec Spec) Case {
 	if per < 1 {
 		per = 1
 	}
-	if spec.Var == "uapi" {
+	if strings.HasPrefix(spec.Var, "uapi") {
 		if err := s.w.Dev.Up(); err != nil { // no peer yet: not an event of the peer's trace
 			s.err = "up: " + err.Error()
 		}
@@ -567,6 +580,19 @@ func run(spec Spec) Case {
 		} else {
 			time.Sleep(time.Until(t0.Add(2800 * ms)))
 		}
+
+	case "pkagive":
+		// persistent keepalive, no session, the handshake cycle fails completely (attempt counter
+		// preset to 19: give-up at the first expiry), no local traffic: one interval after the last
+		// transmission the persistent-keepalive timer starts a new cycle
+		i1 := s.waitInit(1, 2*sec)
+		if i1 == nil {
+			s.err = "no initiation at up with persistent keepalive"
+			break
+		}
+		time.Sleep(40 * ms)
+		s.setAttempts(19)
+		time.Sleep(time.Until(i1.T.Add(time.Duration(spec.Pka)*sec + time.Duration(spec.N)*5334*ms + 650*ms)))
 
 	case "regive":
 		// give-up (attempt counter preset to 19 by the hook, so the next expiry gives up) with
@@ -835,7 +861,7 @@ func run(spec Spec) Case {
 		}
 		t0 := time.Now()
 		iv := time.Duration(spec.Pka) * sec
-		if spec.Var == "toggle" {
+		if strings.HasPrefix(spec.Var, "toggle") {
 			// interval switched off and on again on the same peer (second configuration change)
 			time.Sleep(time.Until(t0.Add(2*iv + iv/2)))
 			s.setPka(0)
@@ -1102,6 +1128,10 @@ func quickSpecs(r *rand.Rand) []Spec {
 		{Kind: "newhs", Role: "init", Per: 1, Var: "exchange", Delay: d()},
 		{Kind: "newhs", Role: "resp", Per: 2, Var: "exchange", Delay: d()},
 		{Kind: "persist", Pka: 1, N: 3, Var: "uapi", Delay: d()},
+		{Kind: "persist", Pka: 1, N: 3, Var: "uapi-multi", Delay: d()},
+		{Kind: "persist", Pka: 1, N: 2, Var: "toggle-multi", Delay: d()},
+		{Kind: "pkagive", Pka: 7, N: 0, Delay: d()},
+		{Kind: "pkagive", Pka: 6 + r.Intn(4), N: 1, Delay: d()},
 		{Kind: "retx", N: 1, Pka: 2, Var: "uapi", Delay: d()},
 		{Kind: "persist", Pka: 1, N: 4, Delay: d()},
 		{Kind: "persist", Pka: 1, N: 3, Delay: d()},
